@@ -153,8 +153,9 @@ void run_case(Choices& c, Report& r)
     for (unsigned k = 0; k < nsteps; ++k)
     {
       Step s{};
-      switch (c.weighted({6, 2, 1, 2}))
+      switch (c.weighted({6, 2, 1, 2, g_prop == "C17" ? 8u : 1u}))
       {
+      case 4: s.kind = 4; s.count = 1 + c.pick(3); total += s.count; break; // logger cycle: create, log a few, remove
       case 3: s.kind = 3; s.count = 1 + c.pick(8); total += s.count; break; // churn: short-lived threads logging for the first time
       case 0:
         s.kind = 0;
@@ -211,6 +212,18 @@ void run_case(Choices& c, Report& r)
               auto const t0 = std::chrono::steady_clock::now();
               while (std::chrono::steady_clock::now() - t0 < std::chrono::nanoseconds{hold_ns}) {}
             });
+          bool first_l = true;
+          quill::detail::LoggerManager::instance().for_each_logger(
+            [&](quill::detail::LoggerBase*)
+            {
+              if (first_l)
+              {
+                first_l = false;
+                auto const t0 = std::chrono::steady_clock::now();
+                while (std::chrono::steady_clock::now() - t0 < std::chrono::nanoseconds{hold_ns}) {}
+              }
+              return false;
+            });
           for (int k = 0; k < 20; ++k) std::this_thread::yield();
         }
       });
@@ -252,6 +265,24 @@ void run_case(Choices& c, Report& r)
               if (ok) last_accepted_plus1 = seq + 1;
               ++seq;
             }
+          }
+          else if (s.kind == 4)
+          {
+            // a private logger sharing the sink: log through it, then remove it (never used again: documented precondition)
+            std::string name = "cyc_" + std::to_string(w) + "_" + std::to_string(seq);
+            RLogger* tmp = RFrontend::create_or_get_logger(name, sink_sp,
+                                                           quill::PatternFormatterOptions{"%(message)", "%H:%M:%S.%Qns", quill::Timezone::GmtTime, false});
+            for (uint32_t i = 0; i < s.count; ++i)
+            {
+              std::string pad = make_pad(w, seq, 7);
+              bool ok = false;
+              try { ok = tmp->template log_statement<false, false>(quill::LogLevel::None, &kMd, static_cast<uint16_t>(w), seq, pad); }
+              catch (quill::QuillError const&) { ok = false; }
+              R.accepted.push_back(ok ? 1 : 0);
+              if (ok) last_accepted_plus1 = seq + 1;
+              ++seq;
+            }
+            RFrontend::remove_logger(tmp);
           }
           else if (s.kind == 3)
           {
